@@ -29,6 +29,12 @@ package main
 // Charged sizes, freeBytes and overheadBytes are read from the handles and the
 // reporter by read-only reflection.
 //
+// Concurrent allocation stream: the handles of a case (histograms whose tag sets
+// differ widely in encoded size, at most eight tags each) are allocated at the
+// same time, one goroutine each; then every bucket is reported into closely
+// filled packets.  charged_ge_actual is also evaluated handle by handle right
+// after allocation (every bucket, reported or not) against the vendored encoder.
+//
 // Fault stream: the loopback sink is closed and re-opened on the SAME port in
 // the middle of a history (ops -2 close, -3 re-open, -4 wait until the
 // reporter's consumer is idle).  A datagram sent to the closed port is lost and
@@ -88,6 +94,9 @@ type c12Case struct {
 	Precision uint       `json:"precision,omitempty"`
 	Allocs    []c12Alloc `json:"allocs"`
 	Ops       []c12Op    `json:"ops"`
+	// the handles are allocated at the same time, one goroutine each (as subscopes create their
+	// metrics on first use), instead of one after the other
+	ConcAlloc bool `json:"concurrent_alloc,omitempty"`
 }
 
 // ---------------------------------------------------------------- real reporter, opened and inspected
@@ -246,20 +255,41 @@ func c12Open(c *c12Case, addr string, maxpkt int32) (rep *c12Rep, err error) {
 			in.tags = c12SortedPairs(m)
 		}
 	}
-	for i := range c.Allocs {
+	alloc := func(i int) interface{} {
 		a := &c.Allocs[i]
-		h := c12Handle{kind: a.Kind}
 		tags := tagsOf(a.Tags)
 		switch a.Kind {
 		case 1:
-			h.h = r.AllocateCounter(string(a.Name), tags)
+			return r.AllocateCounter(string(a.Name), tags)
 		case 2:
-			h.h = r.AllocateGauge(string(a.Name), tags)
+			return r.AllocateGauge(string(a.Name), tags)
 		case 3:
-			h.h = r.AllocateTimer(string(a.Name), tags)
-		default:
-			h.h = r.AllocateHistogram(string(a.Name), tags, c12Buckets(a))
+			return r.AllocateTimer(string(a.Name), tags)
 		}
+		return r.AllocateHistogram(string(a.Name), tags, c12Buckets(a))
+	}
+	hs := make([]interface{}, len(c.Allocs))
+	if c.ConcAlloc {
+		var wg sync.WaitGroup
+		start := make(chan struct{})
+		for i := range c.Allocs {
+			wg.Add(1)
+			go func(i int) {
+				defer wg.Done()
+				<-start
+				hs[i] = alloc(i)
+			}(i)
+		}
+		close(start)
+		wg.Wait()
+	} else {
+		for i := range c.Allocs {
+			hs[i] = alloc(i)
+		}
+	}
+	for i := range c.Allocs {
+		a := &c.Allocs[i]
+		h := c12Handle{kind: a.Kind, h: hs[i]}
 		v := reflect.ValueOf(h.h)
 		switch a.Kind {
 		case 1, 2, 3:
@@ -524,6 +554,52 @@ func c12Run(c *c12Case, restricted, final bool) (res c12Result) {
 	res.Free, res.Ovh = rep.free, rep.ovh
 	if rep.free <= 0 {
 		fail("datagram_le_max", "NewReporter accepted MaxPacketSizeBytes %d with freeBytes %d", maxpkt, rep.free)
+	}
+	// charged >= actual, handle by handle (every bucket of every histogram, reported or not): what
+	// a report through the handle occupies NOW (largest count / timer value, current time) measured
+	// with the vendored encoder, against the size kept in the handle
+	{
+		hcalc := &customtransport.TCalcTransport{}
+		hp := c12Fac(c.Proto).GetProtocol(hcalc)
+		now := time.Now().UnixNano()
+		for hi := range rep.handles {
+			a, h := &c.Allocs[hi], &rep.handles[hi]
+			m := m3thrift.Metric{Name: string(a.Name), Timestamp: now}
+			for k, v := range tagsOf(a.Tags) {
+				m.Tags = append(m.Tags, m3thrift.MetricTag{Name: k, Value: v})
+			}
+			switch a.Kind {
+			case 2:
+				m.Value = m3thrift.MetricValue{MetricType: m3thrift.MetricType_GAUGE, Gauge: math.MaxFloat64}
+			case 3:
+				m.Value = m3thrift.MetricValue{MetricType: m3thrift.MetricType_TIMER, Timer: math.MaxInt64}
+			default:
+				m.Value = m3thrift.MetricValue{MetricType: m3thrift.MetricType_COUNTER, Count: math.MaxInt64}
+			}
+			if len(h.buckets) == 0 {
+				hcalc.ResetCount()
+				m.Write(hp)
+				if l := hcalc.GetCount(); l > h.size {
+					fail("charged_ge_actual", "handle %d (kind %d, name %+.40q, %d tags) was charged %d bytes; a report of the largest value through it now occupies %d", hi, a.Kind, a.Name, len(a.Tags), h.size, l)
+				}
+				continue
+			}
+			own := append([]m3thrift.MetricTag{}, m.Tags...)
+			for bi, b := range h.buckets {
+				m.Tags = append(append([]m3thrift.MetricTag{}, own...),
+					m3thrift.MetricTag{Name: rep.idname, Value: b.id}, m3thrift.MetricTag{Name: rep.bname, Value: b.name})
+				hcalc.ResetCount()
+				m.Write(hp)
+				if l := hcalc.GetCount(); l > b.size {
+					how := "one after the other"
+					if c.ConcAlloc {
+						how = "at the same time, one goroutine each"
+					}
+					fail("charged_ge_actual", "histogram handle %d (name %+.40q, %d tags; the %d handles of the case were allocated %s): bucket %d (%s=%s %s=%s) was charged %d bytes; a report of the largest sample count through it now occupies %d",
+						hi, a.Name, len(a.Tags), len(rep.handles), how, bi, rep.idname, b.id, rep.bname, b.name, b.size, l)
+				}
+			}
+		}
 	}
 	tindex := map[[2]int]int{}
 	entry := func(hi, bi int) int {
@@ -1153,6 +1229,61 @@ func c12Gen(r *Rng, i int, thorough, restricted bool) c12Case {
 	return c
 }
 
+// ---------------------------------------------------------------- concurrent allocation
+
+// c12GenConc: several histograms (and a small counter) allocated at the same time from one
+// goroutine each, with tag sets of very different encoded size (none, a few short, up to eight
+// long ones); then every bucket is reported with a ten-byte sample count, mixed with the small
+// counter so that packets fill up closely.  The property speaks of "every mixture of counters,
+// gauges, timers and histogram buckets, every name and tag set" without restricting who
+// allocates when.
+func c12GenConc(r *Rng, i int, thorough bool) c12Case {
+	c := c12Case{Proto: i % 2, Service: c12Str(r, 1+r.Intn(6)), Env: c12Str(r, 1+r.Intn(6)), ConcAlloc: true}
+	c.Allocs = append(c.Allocs, c12Alloc{Kind: 1, Name: "c"})
+	nh := 4 + r.Intn(5)
+	for k := 0; k < nh; k++ {
+		a := c12Alloc{Kind: 4 + r.Intn(2), Name: B(fmt.Sprintf("h%d", k)) + c12Str(r, r.Intn(12))}
+		switch k % 3 {
+		case 0:
+			a.Tags = map[B]B{}
+			for j, nt := 0, 5+r.Intn(4); j < nt; j++ {
+				a.Tags[B(fmt.Sprintf("tagname%d", j))] = c12Str(r, 30+r.Intn(40))
+			}
+		case 1:
+			// no tags
+		default:
+			a.Tags = c12TagMap(r, 3, true)
+		}
+		nb := 16 + r.Intn(24)
+		if thorough && r.Chance(30) {
+			nb = 40 + r.Intn(30)
+		}
+		if a.Kind == 4 {
+			for j := 0; j < nb; j++ {
+				a.Buckets = append(a.Buckets, fbits(float64(j)))
+			}
+		} else {
+			for j := 0; j < nb; j++ {
+				a.Buckets = append(a.Buckets, int64(j)*int64(time.Millisecond))
+			}
+		}
+		c.Allocs = append(c.Allocs, a)
+	}
+	for h := 1; h < len(c.Allocs); h++ {
+		for b := 0; b <= len(c.Allocs[h].Buckets); b++ {
+			c.Ops = append(c.Ops, c12Op{H: h, B: b, V: math.MaxInt64 - int64(r.Intn(1000))})
+			for k := r.Intn(4); k > 0; k-- {
+				c.Ops = append(c.Ops, c12Op{H: 0, V: math.MaxInt64})
+			}
+		}
+		if r.Chance(30) {
+			c.Ops = append(c.Ops, c12Op{H: -1})
+		}
+	}
+	c.MaxPkt = []int32{1440, 1440, 2000, 4096}[r.Intn(4)]
+	return c
+}
+
 // ---------------------------------------------------------------- fault stream
 
 // c12GenFault: rounds of reports (every value unique), most of them ended by Flush(), the sink
@@ -1281,7 +1412,7 @@ var c12Witnesses = []c12Case{
 func init() {
 	props["C12"] = func(ctx *Ctx) {
 		ctx.Header("M3BatchCorr")
-		ctx.Res.Rule = "case = (protocol, common tags, bucket tag names, handles of all kinds with names 1..600 bytes and 0..8 tags, a history of reports with values at the encoding extremes and Flush() calls, MaxPacketSizeBytes absolute or fitted to the charges of the first j reports +-1) run on a real m3 reporter over loopback UDP; plus a fault stream in which the loopback sink is closed and re-opened on the same port between rounds of reports (failed sends, then normal traffic); non-trivial = at least one datagram; distinct by case hash"
+		ctx.Res.Rule = "case = (protocol, common tags, bucket tag names, handles of all kinds with names 1..600 bytes and 0..8 tags, a history of reports with values at the encoding extremes and Flush() calls, MaxPacketSizeBytes absolute or fitted to the charges of the first j reports +-1) run on a real m3 reporter over loopback UDP; plus a stream in which the handles (histograms with tag sets of very different size) are allocated at the same time from one goroutine each, plus a fault stream in which the loopback sink is closed and re-opened on the same port between rounds of reports (failed sends, then normal traffic); non-trivial = at least one datagram; distinct by case hash"
 		retried, lost := 0, 0
 		exact, dgrams, atMax := 0, 0, 0
 		faults, faultsSeen, faultDelivered, faultEmpty := 0, 0, 0, 0
@@ -1311,6 +1442,9 @@ func init() {
 			}
 			if res.Flushes > 0 && !res.Fault {
 				cls += "/flush"
+			}
+			if c.ConcAlloc {
+				cls += "/concurrent-alloc"
 			}
 			if res.Fault {
 				cls = proto + "/fault"
@@ -1343,7 +1477,10 @@ func init() {
 				}
 			}
 			term := ""
-			if res.Fail == "" && res.Rejected == "" && !(witness && restricted) && !res.Fault {
+			// the concurrent-allocation cases are large (hundreds of bucket rows with long tags): one in
+			// four goes through the model, all of them through the direct predicates
+			concSkip := c.ConcAlloc && ctx.Res.Evaluations%4 != 0
+			if res.Fail == "" && res.Rejected == "" && !(witness && restricted) && !res.Fault && !concSkip {
 				idn, bn := string(c.IDName), string(c.BName)
 				if idn == "" {
 					idn = m3.DefaultHistogramBucketIDName
@@ -1369,7 +1506,13 @@ func init() {
 			if err := json.Unmarshal(ctx.Replay, &c); err != nil {
 				fatal(err)
 			}
-			one(&c, false, false)
+			// a case with concurrent allocation depends on the interleaving of the allocating
+			// goroutines: repeat it until it fails (at most 40 times)
+			for k := 0; k < 40; k++ {
+				if !one(&c, false, false) || !c.ConcAlloc {
+					break
+				}
+			}
 			return
 		}
 		// witness stream: if one of them fails the tree under test has the defect F12 and the
@@ -1411,6 +1554,14 @@ func init() {
 			frng := ctx.R.Fork()
 			for i, nf := 0, ctx.N(24, 400); i < nf; i++ {
 				c := c12GenFault(frng, i)
+				one(&c, false, false)
+			}
+		}
+		// concurrent allocation stream
+		if !restricted {
+			crng := ctx.R.Fork()
+			for i, nc := 0, ctx.N(24, 300); i < nc; i++ {
+				c := c12GenConc(crng, i, ctx.Thorough())
 				one(&c, false, false)
 			}
 		}
